@@ -282,8 +282,12 @@ def jwe_consume(ctx, n_sets):
                                     unprotected=hk if pos == "unprotected" else None, recipient_header=hk if pos == "recipient" else None)
                     except Exception:  # noqa: BLE001 - reference cannot build (e.g. kid type): skip
                         continue
-                    for via in ("direct", "callable"):
-                        c2 = E.DCase(c.value, ks if via == "direct" else ("callable", ks), None, E.JReg(), f"kid-{kid_mode}-{pos}-{via}", c.meta)
+                    for via in ("direct", "callable", "direct-any-recipient"):
+                        # (any-recipient validation is lenient about recipients that cannot be decrypted - not about which key a kid names)
+                        reg_ = E.JReg(verify_all=False) if via == "direct-any-recipient" else E.JReg()
+                        if via == "direct-any-recipient" and ser == "compact":
+                            continue
+                        c2 = E.DCase(c.value, ("callable", ks) if via == "callable" else ks, None, reg_, f"kid-{kid_mode}-{pos}-{via}", c.meta)
 
                         def expect(case, impl, kid_mode=kid_mode, n=n):
                             if kid_mode == "right" or (kid_mode == "absent" and n == 1):
